@@ -21,6 +21,10 @@
 (***************************************************************************)
 EXTENDS TraceLib, Expr
 
+\* the function table for parse_selection (IOEnv.FUNCS: the file lib/exprlib.py funcs_file writes from the documentation); without it every
+\* call inside a parsed text is unknown and such a text has no meaning
+FTab == IF "FUNCS" \in DOMAIN IOEnv THEN ndJsonDeserialize(IOEnv.FUNCS) ELSE <<>>
+TraceFuncTable == {[name |-> FTab[i].name, canon |-> FTab[i].canon, min |-> FTab[i].min, max |-> FTab[i].max] : i \in 1..Len(FTab)}
 VARIABLE l
 Ctx(r) == [input |-> r.ctx.input, parents |-> r.ctx.parents, vars |-> r.ctx.vars, macros |-> r.ctx.macros, results |-> r.ctx.results,
            re |-> IF "re" \in DOMAIN r.ctx THEN r.ctx.re ELSE <<>>]
